@@ -24,7 +24,11 @@ S = 'pybufrkit/script.py'
 C = 'pybufrkit/constants.py'
 D = 'pybufrkit/descriptors.py'
 U = 'pybufrkit/utils.py'
+E = 'pybufrkit/encoder.py'
+M = 'pybufrkit/mdquery.py'
+B = 'pybufrkit/bufr.py'
 Q = 'pybufrkit/dataquery.py'
+K = 'pybufrkit/coder.py'
 
 MUTS = [
     # ---- stage A: constants ------------------------------------------------------------------
@@ -82,6 +86,32 @@ MUTS = [
     ('C14', 'preserve', 'C18', S, "            if c == '}':\n                state = STATE_IDLE\n", "            if c == '}':\n                state = ''\n"),
     ('C15', 'preserve', 'C18', S, "        elif c == '\\n' and state == STATE_COMMENT:\n            state = STATE_IDLE\n            keep.append(c)\n\n        else:\n            keep.append(c)\n",
      "        else:\n            if c == '\\n' and state == STATE_COMMENT:\n                state = STATE_IDLE\n            keep.append(c)\n"),
+    # ---- w5-smallsrc, stages SD / SE / SF: small self-contained functions ------------------------------------
+    # encoder.py nbits_for_uint
+    ('SD1', 'change', 'C02', E, "binx = bin(x)[2:]", "binx = bin(x)[1:]"),
+    ('SD2', 'change', 'C02', E, "    if binx.count('1') == len(binx):\n        nbits += 1", "    if binx.count('1') == len(binx) + 1:\n        nbits += 1"),
+    ('SD3', 'change', 'C05', E, "    if binx.count('1') == len(binx):\n        nbits += 1", "    if binx.count('1') == len(binx):\n        nbits += 2"),
+    ('SD4', 'change', 'C02', E, "    if binx.count('1') == len(binx):\n        nbits += 1", "    if binx.count('0') == len(binx):\n        nbits += 1"),
+    ('SD5', 'unsupported', 'C02', E, "binx = bin(x)[2:]", "binx = '{:b}'.format(x)"),
+    ('SD6', 'preserve', 'C02', E, "    nbits = len(binx)\n", "    nbits = 0\n    nbits += len(binx)\n"),
+    ('SD7', 'preserve', 'C02', E, "    if binx.count('1') == len(binx):\n        nbits += 1", "    if binx.count('0') == 0:\n        nbits += 1"),
+    # mdquery.py MetadataExprParser.parse
+    ('SE1', 'change', 'C17', M, "metadata_expr[1:].split('.')", "metadata_expr.split('.')"),
+    ('SE2', 'change', 'C17', M, "metadata_expr = metadata_expr.strip()", "metadata_expr = metadata_expr.lstrip()"),
+    ('SE3', 'change', 'C17', M, "            section_index = None\n", "            section_index = 0\n"),
+    ('SE4', 'change', 'C17', M, "            except ValueError:\n", "            except IndexError:\n"),
+    ('SE5', 'change', 'C17', M, "            metadata_name = metadata_expr[1:]\n", "            metadata_name = metadata_expr[2:]\n"),
+    ('SE6', 'unsupported', 'C17', M, "section_index = int(section_index)", "section_index = int(section_index, 10)"),
+    ('SE7', 'preserve', 'C17', M, "            section_index = None\n            metadata_name = metadata_expr[1:]\n",
+     "            metadata_name = metadata_expr[1:]\n            section_index = None\n"),
+    ('SE8', 'preserve', 'C17', M, "if '.' in metadata_expr:", "if metadata_expr.count('.') > 0:"),
+    # bufr.py BufrMessage.subset (fragments subset_checks, subset_select)
+    ('SF1', 'change', 'C10', B, "if max(subset_indices) >= self.n_subsets.value:", "if max(subset_indices) > self.n_subsets.value:"),
+    ('SF2', 'change', 'C10', B, "if min(subset_indices) < 0:", "if min(subset_indices) < -1:"),
+    ('SF3', 'change', 'C10', B, "n_subsets = len(set(subset_indices))", "n_subsets = len(subset_indices)"),
+    ('SF4', 'change', 'C10', B, "                         if i in subset_indices]", "                         if i not in subset_indices]"),
+    ('SF5', 'preserve', 'C10', B, "if min(subset_indices) < 0:", "if 0 > min(subset_indices):"),
+    ('SF6', 'unsupported', 'C10', B, "n_subsets = len(set(subset_indices))", "n_subsets = len(frozenset(subset_indices))"),
     # ---- stage D: the whole NodePathParser of dataquery.py (stateful class, C15_src_parse_eq) ----------------
     ('D1', 'change', 'C15', Q, "                if self.current_state == STATE_START_PARSING:\n                    self.current_state = STATE_START_SUBSET\n",
      "                if True:\n                    self.current_state = STATE_START_SUBSET\n"),
@@ -118,6 +148,45 @@ MUTS = [
      "        if c != PATH_SEPARATOR_ATTRIB and self.current_state == STATE_START_PARSING:"),
     ('D23', 'preserve', 'C15', Q, "        token, self.current_token = self.current_token, ''\n", "        token = self.current_token\n        self.current_token = ''\n"),
     ('D24', 'preserve', 'C15', Q, "        if len(self.current_slice_elements) == 0:", "        if self.current_slice_elements == []:"),
+    # ---- stage E (worker w5-codersrc): CoderState methods and Coder.process_operator_descriptor --------------
+    ('E1', 'change', 'C01', K, "state.nbits_offset = (operand_value - 128) if operand_value else 0",
+     "state.nbits_offset = (operand_value - 127) if operand_value else 0"),
+    ('E2', 'change', 'C01', K, "nbits_increment=(10 * operand_value + 2) // 3,", "nbits_increment=(10 * operand_value) // 3,"),
+    ('E3', 'change', 'C01', K, "                if operand_value == 0:\n                    state.cancel_new_refvals()\n",
+     "                if operand_value == 0:\n                    pass\n"),
+    ('E4', 'change', 'C01', K, "            if operand_value == 0:\n                state.nbits_of_associated.pop()\n            else:\n                state.nbits_of_associated.append(operand_value)\n",
+     "            if operand_value != 0:\n                state.nbits_of_associated.pop()\n            else:\n                state.nbits_of_associated.append(operand_value)\n"),
+    ('E5', 'change', 'C06', K, "        self.nbits_offset = 0  # 201\n", ""),
+    ('E6', 'change', 'C07', K, "        self.bitmap = None\n        self.bitmapped_descriptors = None\n\n    def cancel_new_refvals",
+     "        self.bitmap = None\n\n    def cancel_new_refvals"),
+    ('E7', 'change', 'C01', K, "                if state.most_recent_bitmap_is_for_reuse:\n                    state.cancel_bitmap()\n",
+     "                state.cancel_bitmap()\n"),
+    ('E8', 'change', 'C01', K, "            state.nbits_of_skipped_local_descriptor = operand_value\n\n        elif operator_code == 207:",
+     "            state.new_nbytes = operand_value\n\n        elif operator_code == 207:"),
+    ('E9', 'change', 'C01', K, "                state.bitmap_definition_state = BITMAP_INDICATOR\n                state.mark_back_reference_boundary()\n",
+     "                state.bitmap_definition_state = BITMAP_INDICATOR\n"),
+    ('E10', 'change', 'C07', K, "        self.back_reference_boundary = len(self.decoded_descriptors)\n",
+     "        self.back_reference_boundary = len(self.decoded_descriptors) - 1\n"),
+    ('E11', 'change', 'C07', K, "    def recall_bitmap(self):\n        self.next_bitmapped_descriptor = functools.partial(next, iter(self.bitmapped_descriptors))",
+     "    def recall_bitmap(self):\n        self.next_bitmapped_descriptor = functools.partial(next, iter(self.back_referenced_descriptors))"),
+    ('E12', 'change', 'C07', K, "        self.bitmap_links[len(self.decoded_descriptors)] = idx_descriptor",
+     "        self.bitmap_links[len(self.decoded_descriptors) + 1] = idx_descriptor"),
+    ('E13', 'change', 'C06', K, "        # should NOT affect this subset. Also we do not care about what is\n        # defined in previous subset so we are not saving them.\n        self.reset_template_state()\n",
+     "        # should NOT affect this subset. Also we do not care about what is\n        # defined in previous subset so we are not saving them.\n"),
+    ('E14', 'change', 'C01', K, "                if operator_code == 222:\n                    state.status_qa_info_follows = QA_INFO_WAITING",
+     "                if operator_code == 223:\n                    state.status_qa_info_follows = QA_INFO_WAITING"),
+    ('E15', 'change', 'C01', K, "refval_factor=10 ** operand_value,", "refval_factor=10 ** (operand_value + 1),"),
+    ('E16', 'change', 'C06', K, "        self.nbits_of_associated = []  # 204\n", ""),
+    ('E17', 'unsupported', 'C06', K, "        self.new_refvals = {}  # 2 03 255 to conclude, not cancel", "        self.new_refvals = dict()  # 2 03 255 to conclude, not cancel"),
+    ('E18', 'unsupported', 'C01', K, "                state.nbits_of_associated.pop()\n", "                del state.nbits_of_associated[-1]\n"),
+    ('E19', 'preserve', 'C01', K, "state.nbits_offset = (operand_value - 128) if operand_value else 0",
+     "state.nbits_offset = (operand_value - 128) if operand_value != 0 else 0"),
+    ('E20', 'preserve', 'C06', K, "        self.nbits_offset = 0  # 201\n        self.scale_offset = 0  # 202\n", "        self.scale_offset = 0  # 202\n        self.nbits_offset = 0  # 201\n"),
+    ('E21', 'preserve', 'C01', K, "        elif operator_code in (222, 223, 224, 225, 232):", "        elif operator_code in (232, 225, 224, 223, 222):"),
+    ('E22', 'preserve', 'C07', K, "        self.back_referenced_descriptors = None\n        self.bitmap = None\n        self.bitmapped_descriptors = None\n",
+     "        self.bitmapped_descriptors = None\n        self.bitmap = None\n        self.back_referenced_descriptors = None\n"),
+    ('E23', 'preserve', 'C01', K, "            if operand_value == 0:\n                state.bsr_modifier = BSRModifier(\n                    nbits_increment=0, scale_increment=0, refval_factor=1\n                )",
+     "            if operand_value == 0:\n                state.bsr_modifier = BSRModifier(0, 0, 1)"),
 ]
 
 
